@@ -372,6 +372,7 @@ type bufScanner struct {
 		pos Pos
 		lit string
 	}
+	vs verifScanState
 }
 
 // newBufScanner returns a new buffered scanner for a reader.
@@ -391,6 +392,7 @@ func (s *bufScanner) ScanRegex() (tok Token, pos Pos, lit string) {
 
 // scanFunc uses the provided function to scan the next token.
 func (s *bufScanner) scanFunc(scan func() (Token, Pos, string)) (tok Token, pos Pos, lit string) {
+	s.verifOnScan()
 	// If we have unread tokens then read them off the buffer first.
 	if s.n > 0 {
 		s.n--
@@ -410,6 +412,7 @@ func (s *bufScanner) Unscan() { s.n++ }
 
 // curr returns the last read token.
 func (s *bufScanner) curr() (tok Token, pos Pos, lit string) {
+	s.verifOnCurr()
 	buf := &s.buf[(s.i-s.n+len(s.buf))%len(s.buf)]
 	return buf.tok, buf.pos, buf.lit
 }
@@ -426,6 +429,7 @@ type reader struct {
 		pos Pos
 	}
 	eof bool // true if reader has ever seen eof.
+	vs  verifReadState
 }
 
 // ReadRune reads the next rune from the reader.
@@ -448,6 +452,7 @@ func (r *reader) UnreadRune() error {
 
 // read reads the next rune from the reader.
 func (r *reader) read() (ch rune, pos Pos) {
+	r.verifOnRead()
 	// If we have unread characters then read them off the buffer first.
 	if r.n > 0 {
 		r.n--
@@ -472,6 +477,7 @@ func (r *reader) read() (ch rune, pos Pos) {
 	r.i = (r.i + 1) % len(r.buf)
 	buf := &r.buf[r.i]
 	buf.ch, buf.pos = ch, r.pos
+	r.verifOnFresh()
 
 	// Update position.
 	// Only count EOF once.
@@ -494,10 +500,12 @@ func (r *reader) read() (ch rune, pos Pos) {
 // unread pushes the previously read rune back onto the buffer.
 func (r *reader) unread() {
 	r.n++
+	r.verifOnUnread()
 }
 
 // curr returns the last read character and position.
 func (r *reader) curr() (ch rune, pos Pos) {
+	r.verifOnCurr()
 	i := (r.i - r.n + len(r.buf)) % len(r.buf)
 	buf := &r.buf[i]
 	return buf.ch, buf.pos
